@@ -177,11 +177,12 @@ func lemmaCmpTrans(a, b, c Object) (ab, bc, ac int, eab, ebc, eac bool) {
 
 //@ func (SmallMap).get
 //@   uses cmpOrder
-//@   requires smSorted(m)
+//@   requires @C11 smSorted(m)
 //@   pure
 //@   trustframe
-//@   ensures  found:: implies(result1, 0 <= result2 && result2 < m.len && Cmp(smKey(m, result2), key) == 0 && result0 == smVal(m, result2))
-//@   ensures  notfound:: implies(!result1, 0 <= result2 && result2 <= m.len && forall(0, result2, func(i int) bool { return Cmp(smKey(m, i), key) == -1 }) && (result2 == m.len || Cmp(smKey(m, result2), key) == 1))
+//@   safety C11
+//@   ensures  @C11 found:: implies(result1, 0 <= result2 && result2 < m.len && Cmp(smKey(m, result2), key) == 0 && result0 == smVal(m, result2))
+//@   ensures  @C11 notfound:: implies(!result1, 0 <= result2 && result2 <= m.len && forall(0, result2, func(i int) bool { return Cmp(smKey(m, i), key) == -1 }) && (result2 == m.len || Cmp(smKey(m, result2), key) == 1))
 //@   loop 1 invariant 0 <= rangeint_iter && rangeint_iter < m.len
 //@   loop 1 invariant forall(0, rangeint_iter, func(i int) bool { return Cmp(smKey(m, i), key) == -1 })
 //@   loop 1 decreases m.len - rangeint_iter
@@ -209,9 +210,9 @@ func lemmaCmpTrans(a, b, c Object) (ab, bc, ac int, eab, ebc, eac bool) {
 //@   ensures  @C06 noinplace:: memsame(keyValuePair) && memsame(Object)
 //@   ensures  @C06 freshbig:: implies(isType(result, *BigMap), freshref(result.(*BigMap)) && freshref(result.(*BigMap).kv))
 //@   loop 1 invariant @C06 memsame(keyValuePair) && memsame(Object)
-//@   loop 1 invariant i == pos && pos <= j && j <= m0.len && m.len == m0.len + 1 && m0.len + 1 <= 4
-//@   loop 1 invariant forall(0, j + 1, func(k int) bool { return smKey(m, k) == smKey(m0, k) && smVal(m, k) == smVal(m0, k) })
-//@   loop 1 invariant forall(j + 1, m0.len + 1, func(k int) bool { return smKey(m, k) == smKey(m0, k - 1) && smVal(m, k) == smVal(m0, k - 1) })
+//@   loop 1 invariant @C11 i == pos && pos <= j && j <= m0.len && m.len == m0.len + 1 && m0.len + 1 <= 4
+//@   loop 1 invariant @C11 forall(0, j + 1, func(k int) bool { return smKey(m, k) == smKey(m0, k) && smVal(m, k) == smVal(m0, k) })
+//@   loop 1 invariant @C11 forall(j + 1, m0.len + 1, func(k int) bool { return smKey(m, k) == smKey(m0, k - 1) && smVal(m, k) == smVal(m0, k - 1) })
 //@   loop 1 decreases j
 //@   safety C11
 //@   property C11 C06
@@ -240,8 +241,8 @@ func lemmaCmpTrans(a, b, c Object) (ab, bc, ac int, eab, ebc, eac bool) {
 //@   modifies heap
 //@   nosafety
 //@   maypanic *
-//@   loop 1 invariant memsame(keyValuePair) && memsame(Object) && res != nil && freshref(res) && freshref(res.kv)
-//@   ensures  noinplace:: memsame(keyValuePair) && memsame(Object)
+//@   loop 1 invariant @C06 memsame(keyValuePair) && memsame(Object) && res != nil && freshref(res) && freshref(res.kv)
+//@   ensures  @C06 noinplace:: memsame(keyValuePair) && memsame(Object)
 //@   property C06
 
 // (*BigMap).Set writes its receiver in place (by design: callers hand it storage nobody else holds).
@@ -265,9 +266,9 @@ func lemmaCmpTrans(a, b, c Object) (ab, bc, ac int, eab, ebc, eac bool) {
 //@   modifies heap
 //@   nosafety
 //@   maypanic *
-//@   loop 1 invariant memsame(keyValuePair) && memsame(Object) && implies(isType(ires, *BigMap), freshref(ires.(*BigMap)) && freshref(ires.(*BigMap).kv))
-//@   loop 2 invariant memsame(keyValuePair) && memsame(Object) && res != nil && freshref(res) && freshref(res.kv)
-//@   ensures  noinplace:: memsame(keyValuePair) && memsame(Object)
+//@   loop 1 invariant @C06 memsame(keyValuePair) && memsame(Object) && implies(isType(ires, *BigMap), freshref(ires.(*BigMap)) && freshref(ires.(*BigMap).kv))
+//@   loop 2 invariant @C06 memsame(keyValuePair) && memsame(Object) && res != nil && freshref(res) && freshref(res.kv)
+//@   ensures  @C06 noinplace:: memsame(keyValuePair) && memsame(Object)
 //@   property C06
 
 //@ define missmono() = forallv(func(x *Environment) bool { return implies(old(allocated(x)), x.getMiss >= old(x.getMiss)) })
@@ -350,6 +351,7 @@ func lemmaCmpTrans(a, b, c Object) (ab, bc, ac int, eab, ebc, eac bool) {
 //@ func (*Environment).MakeRegister
 //@   requires e != nil
 //@   requires @C05,C07 0 <= e.numReg
+//@   safety C05 C07
 //@   requires capacity:: e.numReg < 8
 //@   modifies e.numReg, e.registers, map token.interning
 //@   trustframe
@@ -375,6 +377,7 @@ func lemmaCmpTrans(a, b, c Object) (ab, bc, ac int, eab, ebc, eac bool) {
 
 //@ func NewFunctionEnvironment
 //@   requires @C05,C07 current != nil && (streq(current.cacheKey, fn.CacheKey) || fn.Env != nil)
+//@   safety C05 C07
 //@   ensures  fresh:: result0 != nil && !old(allocated(result0)) && result0.numReg == 0
 //@   property C05
 
